@@ -399,18 +399,27 @@ def ob_threshold(chk, ed, core, K):
         def __init__(self, t):
             self.const_value = t
 
+    class Ext:
+        """what the writer returns for a tensor: an external tensor carrying the tensor's name"""
+
+        def __init__(self, t):
+            self.source = t
+            self.name = t.name
+
     for kinds in _kind_vectors(K):
         name = f"threshold_split[K={K},kinds={''.join(kinds)}]"
 
         def body(kinds=kinds):
             ts = []
             for i, (k, s) in enumerate(zip(kinds, sizes)):
+                half_ = (K + 1) // 2
+                nm = f"t{i % half_}"       # the two graphs use the same tensor names (legal: names are per graph)
                 if k == "n":
                     ts.append(None)
                 elif k == "e":
-                    ts.append(FExt(SV(s), f"t{i}"))
+                    ts.append(FExt(SV(s), nm))
                 else:
-                    ts.append(FT(SV(s), f"t{i}"))
+                    ts.append(FT(SV(s), nm))
             vals = [V(t) for t in ts]
             half = (K + 1) // 2
 
@@ -426,7 +435,7 @@ def ob_threshold(chk, ed, core, K):
 
             def fake_write(tensors, base_dir, relative_path, **kw):
                 events.append(("write", None))
-                return [("ext", t) for t in tensors]
+                return [Ext(t) for t in tensors]
 
             unload = rebind(ed.unload_from_model, _write_external_tensors=fake_write)
             m = M()
@@ -438,7 +447,7 @@ def ob_threshold(chk, ed, core, K):
                     if cv is not None:
                         return False
                     continue
-                is_ext = isinstance(cv, tuple) and cv[0] == "ext" and cv[1] is t
+                is_ext = isinstance(cv, Ext) and cv.source is t
                 is_mem = (k == "e" and isinstance(cv, core.Tensor) and cv.name == t.name and cv.dtype == ir.DataType.FLOAT
                           and cv.numpy().tobytes() == t._data.tobytes())
                 if is_mem:
@@ -481,20 +490,28 @@ def _kind_vectors(K):
     return out
 
 
-def ob_st_threshold(chk, st, K):
+def ob_st_threshold(chk, st, K, subbyte=False):
     """safetensors `_save_file`: nbytes >= threshold <=> saved externally (documented difference to the
     raw backend at equality), order preserved, shards as computed; the library itself is a recorder."""
     import onnx_ir as ir
 
-    sizes = [z3.Int(f"s{i}") for i in range(K)]
     thr, mx = z3.Ints("thr mx")
-    assume = [s >= 0 for s in sizes] + [thr >= 0, mx > 0]
-    name = f"safetensors_threshold[K={K}]"
+    if subbyte:
+        # 4-bit tensors: the element count is symbolic, the byte size is ceil(count / 2)
+        counts = [z3.Int(f"count{i}") for i in range(K)]
+        sizes = [(c + 1) / 2 for c in counts]
+        assume = [c >= 0 for c in counts] + [thr >= 0, mx > 0]
+    else:
+        counts = None
+        sizes = [z3.Int(f"s{i}") for i in range(K)]
+        assume = [s >= 0 for s in sizes] + [thr >= 0, mx > 0]
+    name = f"safetensors_threshold[K={K}{', INT4 tensors' if subbyte else ''}]"
 
     class T(FT):
-        def __init__(self, nb, nm):
+        def __init__(self, nb, nm, count=None):
             super().__init__(nb, nm)
-            self.dtype = ir.DataType.UINT8
+            self.dtype = ir.DataType.INT4 if subbyte else ir.DataType.UINT8
+            self.size = count if count is not None else nb      # element count (one byte per element for UINT8)
 
             class S:
                 def numpy(self_inner):
@@ -536,7 +553,7 @@ def ob_st_threshold(chk, st, K):
 
         save = rebind(st._save_file, _import_safetensors=lambda: FakeST, _replace_tensors=fake_replace,
                       json=FakeJson, open=fake_open)
-        ts = [T(SV(s), f"t{i}") for i, s in enumerate(sizes)]
+        ts = [T(SV(s), f"t{i}", None if counts is None else SV(counts[i])) for i, s in enumerate(sizes)]
         vals = [V(t) for t in ts]
         calls = []
         save(vals, "w.safetensors", "base", size_threshold_bytes=SV(thr), max_shard_size_bytes=SV(mx),
@@ -573,10 +590,10 @@ def ob_st_threshold(chk, st, K):
         return z3.And(*conj) if conj else True
 
     def replay(m):
-        return True, dict(sizes=[zsym.model_int(m, s) for s in sizes], threshold=zsym.model_int(m, thr), mx=zsym.model_int(m, mx))
+        return True, dict(sizes=[zsym.model_int(m, s) for s in (counts if counts is not None else sizes)], threshold=zsym.model_int(m, thr), mx=zsym.model_int(m, mx))
 
     r = explore(body, assume, timeout_ms=60000)
-    _account(chk, name, r, dict(sizes=f"{K} x Int>=0", size_threshold_bytes="Int>=0", max_shard_size_bytes="Int>0"), replay, body=body)
+    _account(chk, name, r, dict(sizes=f"{K} x Int>=0" + (" element counts of 4-bit tensors" if subbyte else ""), size_threshold_bytes="Int>=0", max_shard_size_bytes="Int>0"), replay, body=body)
 
 
 def ob_restore(chk, K):
@@ -715,6 +732,8 @@ def run(chk, tier):
         ob_threshold(chk, ed, core, K)
     for K in range(1, (3 if quick else 4) + 1):
         ob_st_threshold(chk, st, K)
+        if K <= 3:
+            ob_st_threshold(chk, st, K, subbyte=True)
     for K in range(1, (3 if quick else 5) + 1):
         ob_restore(chk, K)
     chk.extra["rule"] = "one case per (obligation kind, K, alignment kind, tensor-kind vector); each case is decided for every integer value of its symbolic sizes/thresholds by z3"
